@@ -23,6 +23,10 @@ def agree(a, b):
 
 
 def run(rep, tier, seed, replay):
+    if replay and E2E.replay_case(rep, "C09", replay):
+        rep.cov.setdefault("trusted_base", ["end-to-end replay of one case against the built binary"])
+        rep.cov.setdefault("rule", "replay of one end-to-end case")
+        return
     rep.cov["trusted_base"] = TRUSTED
     rnd = random.Random(seed)
     n = 700 if tier == "quick" else 20000
